@@ -8,7 +8,8 @@ from . import core
 from .core import cq_bool, cq_list, cq_pos
 
 THEOREMS = ["C09_partition", "C09_flow", "C09_potential", "C09_model_rows", "C09_sharing_invariant",
-            "C09_example"]
+            "C09_example", "C09_join_injective", "C09_prefix_with_separator", "C09_bare_prefix_refuted",
+            "C09_name_test_sound", "C09_string_partition", "C09_string_model_rows", "C09_string_example"]
 
 POT_KINDS = ("pot", "in", "out")
 KIND_DECL = {"pot": "Real", "in": "input Real", "out": "output Real", "flow": "flow Real",
@@ -549,6 +550,143 @@ def small_orders(nedges):
 
 
 # ---------------------------------------------------------------------------
+# fail-closed ast probe: which string operations does the code use on flattened names at the sites
+# the property anchors (parent process only reads the source text, it never imports pymoca)
+# ---------------------------------------------------------------------------
+PROBE_CALL_ATTRS = {"ComponentRef", "Equation", "Expression", "Primary", "all", "append", "find_class",
+                    "format", "get", "items", "pop", "update", "values", "warning", "startswith"}
+PROBE_CALL_NAMES = {"Exception", "OrderedDict", "flatten_class", "getattr", "hasattr", "isinstance", "len",
+                    "list", "reversed", "tuple", "any", "dict", "id"}
+
+
+class ProbeFail(Exception):
+    pass
+
+
+def probe_names(repo):
+    """Returns (sites, sep): sites = list of 'TExact' | 'TPrefixSep' | 'TPrefixBare', one per statement of
+    expand_connectors that removes entries from disconnected_flow_variables; raises ProbeFail on anything
+    the reader does not recognise."""
+    import ast as A
+    src = open(repo + "/src/pymoca/tree.py").read()
+    mod = A.parse(src)
+    U = A.unparse
+    sep = None
+    for n in mod.body:
+        if isinstance(n, A.Assign) and len(n.targets) == 1 and U(n.targets[0]) == "CLASS_SEPARATOR":
+            if not (isinstance(n.value, A.Constant) and isinstance(n.value.value, str) and len(n.value.value) == 1):
+                raise ProbeFail("CLASS_SEPARATOR is not a one-character string literal")
+            sep = n.value.value
+    if sep is None:
+        raise ProbeFail("CLASS_SEPARATOR not found")
+    funcs = {n.name: n for n in mod.body if isinstance(n, A.FunctionDef)}
+    for fn in ("expand_connectors", "flatten_symbols"):
+        if fn not in funcs:
+            raise ProbeFail("function %s not found" % fn)
+    # name construction in flatten_symbols (instance prefix) and in the component-reference flattener
+    fs = {U(n) for n in A.walk(funcs["flatten_symbols"]) if isinstance(n, (A.Assign, A.AugAssign))}
+    for want in ("instance_prefix = instance_name + CLASS_SEPARATOR", "sym.name = instance_prefix + sym_name"):
+        if want not in fs:
+            raise ProbeFail("flatten_symbols: statement '%s' not found" % want)
+    allst = {U(n) for n in A.walk(mod) if isinstance(n, (A.Assign, A.AugAssign))}
+    for want in ("new_name = self.instance_prefix + tree.name", "new_name += CLASS_SEPARATOR + c.name"):
+        if want not in allst:
+            raise ProbeFail("component reference flattening: statement '%s' not found" % want)
+    f = funcs["expand_connectors"]
+    # vocabulary of the function: no unknown string / container operations
+    for n in A.walk(f):
+        if isinstance(n, A.Call):
+            if isinstance(n.func, A.Attribute):
+                if n.func.attr not in PROBE_CALL_ATTRS:
+                    raise ProbeFail("expand_connectors: unknown method call .%s()" % n.func.attr)
+            elif isinstance(n.func, A.Name):
+                if n.func.id not in PROBE_CALL_NAMES:
+                    raise ProbeFail("expand_connectors: unknown call %s()" % n.func.id)
+            else:
+                raise ProbeFail("expand_connectors: computed call target")
+        if isinstance(n, A.Compare):
+            txt = U(n)
+            for o, right in zip(n.ops, n.comparators):
+                if isinstance(o, (A.In, A.NotIn)) and ("name" in U(right).lower()
+                                                       or (isinstance(right, A.Constant) and isinstance(right.value, str))):
+                    raise ProbeFail("expand_connectors: substring test inside a name: %s" % txt)
+        if isinstance(n, A.Subscript) and isinstance(n.slice, A.Slice) and "name" in U(n.value).lower():
+            raise ProbeFail("expand_connectors: slice of a name: %s" % U(n))
+    assigns = {}
+    for n in A.walk(f):
+        if isinstance(n, A.Assign) and len(n.targets) == 1 and isinstance(n.targets[0], A.Name):
+            assigns.setdefault(n.targets[0].id, set()).add(U(n.value))
+    exact_names = {
+        "left_name": "equation.left.name + CLASS_SEPARATOR + connector_variable.name",
+        "right_name": "equation.right.name + CLASS_SEPARATOR + connector_variable.name",
+    }
+    for k, v in exact_names.items():
+        if assigns.get(k) != {v}:
+            raise ProbeFail("expand_connectors: %s is built as %s" % (k, sorted(assigns.get(k, []))))
+    for k in ("left_key", "right_key"):
+        vals = assigns.get(k, set())
+        if len(vals) != 1 or not next(iter(vals)).startswith("(%s, " % k.replace("key", "name")):
+            raise ProbeFail("expand_connectors: %s is not the tuple (%s, indices, inner)" % (k, k.replace("key", "name")))
+    D = "disconnected_flow_variables"
+    sites = []
+    allowed_other = {"%s = OrderedDict()" % D, "%s[sym.name] = sym" % D}
+    for n in A.walk(f):
+        if isinstance(n, A.Call) and isinstance(n.func, A.Attribute) and n.func.attr == "startswith":
+            if len(n.args) != 1:
+                raise ProbeFail("startswith with %d arguments" % len(n.args))
+            a = n.args[0]
+            if isinstance(a, A.BinOp) and isinstance(a.op, A.Add) and U(a.right) in ("CLASS_SEPARATOR", repr(sep)):
+                sites.append("TPrefixSep")
+            else:
+                sites.append("TPrefixBare")
+    for n in A.walk(f):
+        if isinstance(n, A.Delete):
+            for t in n.targets:
+                if D in U(t) and not any(x.startswith("TPrefix") for x in sites):
+                    raise ProbeFail("del on %s without a recognised name test: %s" % (D, U(n)))
+        if isinstance(n, (A.Assign, A.AugAssign)) and D in U(n.targets[0] if isinstance(n, A.Assign) else n.target):
+            if U(n) not in allowed_other:
+                raise ProbeFail("unrecognised assignment to %s: %s" % (D, U(n)))
+        if isinstance(n, A.Call) and isinstance(n.func, A.Attribute) and U(n.func.value) == D:
+            if n.func.attr == "pop":
+                if len(n.args) == 2 and isinstance(n.args[0], A.Name) and n.args[0].id in exact_names \
+                        and U(n.args[1]) == "None":
+                    sites.append("TExact")
+                else:
+                    raise ProbeFail("unrecognised pop on %s: %s" % (D, U(n)))
+            elif n.func.attr != "values":
+                raise ProbeFail("unrecognised operation on %s: %s" % (D, U(n)))
+    # flow_connections: exact dict-key operations only
+    for n in A.walk(f):
+        if isinstance(n, A.Call) and isinstance(n.func, A.Attribute) and U(n.func.value) == "flow_connections":
+            if n.func.attr not in ("get", "values"):
+                raise ProbeFail("unrecognised operation on flow_connections: %s" % U(n))
+    if not sites:
+        raise ProbeFail("no statement removes entries from %s" % D)
+    return sites, sep
+
+
+def check_name_tie(ctx):
+    """S1: read the name tests from the source, evaluate the accepting predicate inside Coq."""
+    try:
+        sites, sep = probe_names(core.REPO)
+    except (ProbeFail, OSError, SyntaxError) as e:
+        ctx.oblige("tie:name-tests (ast probe of tree.py, fail closed)", False, "probe failed: %s" % e)
+        ctx.notes["name_probe"] = {"error": str(e)}
+        return
+    text = (core.HEADER + "From stdpp Require Import gmap strings.\nFrom Coq Require Import Ascii.\n"
+            "From PV Require Import Lib.Closure Lib.DotJoin Model.C09_connect Proofs.C09_connect Proofs.C09_names.\n"
+            "Eval vm_compute in (tie_ok [%s] (ascii_of_nat %d)).\n" % ("; ".join(sites), ord(sep)))
+    ok, out, err = core.coq_run(ctx, "name_tie", text, timeout=300)
+    vals = core.coq_results(out) if ok else []
+    good = ok and vals and vals[-1].strip() == "true"
+    ctx.oblige("tie:name-tests (ast probe of tree.py, fail closed)", good,
+               "sites=%s separator=%r coq=%s %s" % (sites, sep, vals[-1:] if vals else "", err[-300:]))
+    ctx.notes["name_probe"] = {"sites": sites, "separator": sep,
+                               "accepted_by": "Proofs/C09_names.v tie_ok (theorem C09_name_test_sound)"}
+
+
+# ---------------------------------------------------------------------------
 # Coq encoding
 # ---------------------------------------------------------------------------
 def ident_ids(case):
@@ -559,18 +697,18 @@ def ident_ids(case):
         names.update(n for n, _ in c["conns"])
         names.update(n for n, _ in c["subs"])
         names.update(c.get("reals", []))
-    return {n: i + 1 for i, n in enumerate(sorted(names))}
+    return {n: cq_pos(i + 1) for i, n in enumerate(sorted(names))}
 
 
 KIND_COQ = {"pot": "KPot", "in": "KPot", "out": "KPot", "flow": "KFlow", "par": "KPar", "const": "KPar"}
 
 
 def enc_cvars(ids, cvars):
-    return cq_list(["(%s, %s)" % (cq_pos(ids[v]), KIND_COQ[k]) for v, k in cvars])
+    return cq_list(["(%s, %s)" % (ids[v], KIND_COQ[k]) for v, k in cvars])
 
 
 def enc_ref(ids, r):
-    return "(CRef %s %s)" % ("None" if r[0] is None else "(Some %s)" % cq_pos(ids[r[0]]), cq_pos(ids[r[1]]))
+    return "(CRef %s %s)" % ("None" if r[0] is None else "(Some %s)" % ids[r[0]], ids[r[1]])
 
 
 def enc_inst(case, tab, ids, cname):
@@ -579,8 +717,8 @@ def enc_inst(case, tab, ids, cname):
     subs = [d for d in c["decl_order"] if d in [list(x) for x in c["subs"]] and d[1] in tab]
     subs = [d for d in subs if d[1] not in case["connectors"]]
     conns = [d for d in c["decl_order"] if d[1] in case["connectors"]]
-    decl = cq_list(["(%s, %s)" % (cq_pos(ids[n]), enc_cvars(ids, case["connectors"][t])) for n, t in conns])
-    ss = cq_list(["(%s, %s)" % (cq_pos(ids[n]), enc_inst(case, tab, ids, t)) for n, t in subs])
+    decl = cq_list(["(%s, %s)" % (ids[n], enc_cvars(ids, case["connectors"][t])) for n, t in conns])
+    ss = cq_list(["(%s, %s)" % (ids[n], enc_inst(case, tab, ids, t)) for n, t in subs])
     cl = []
     for it in c["body"]:
         if it[0] == "connect":
@@ -591,7 +729,7 @@ def enc_inst(case, tab, ids, cname):
 
 
 def enc_row(ids, row):
-    return cq_list(["(%s, %s)" % (cq_list([cq_pos(ids[x]) for x in v.split(".")]), core.cq_Z(int(c)))
+    return cq_list(["(%s, %s)" % (cq_list([ids[x] for x in v.split(".")]), core.cq_Z(int(c)))
                     for v, c in sorted(row.items())])
 
 
@@ -616,6 +754,42 @@ def encode_case(case, res):
 
 SHARD = 120
 PREAMBLE = "From stdpp Require Import gmap.\nFrom PV Require Import Lib.Closure Model.C09_connect.\n"
+CASE_TYPE = "inst positive * list (list (list positive * Z))"
+
+# string level: identifiers and flattened names as the real strings, names built by the dot-joined instance
+PREAMBLE_S = ("From stdpp Require Import gmap strings.\nFrom Coq Require Import Ascii String.\n"
+              "From PV Require Import Lib.Closure Lib.DotJoin Model.C09_connect Proofs.C09_connect Proofs.C09_names.\n"
+              "Close Scope string_scope.\n"
+              "Definition check_case_s (c : inst (list ascii) * list (list (list ascii * Z))) : bool := check_case c.\n")
+CASE_TYPE_S = "inst (list ascii) * list (list (list ascii * Z))"
+
+
+class StrIds(dict):
+    """identifier -> Coq term of type list ascii (the identifier itself)"""
+    def __missing__(self, k):
+        assert k.replace("_", "a").isalnum(), k
+        return '(lit "%s")' % k
+
+
+def encode_case_s(case, res):
+    tab = class_table(case)
+    rows = [clean(r) for r in impl_rows(res)]
+    _, passthrough, _ = reference(case)
+    for p_ in passthrough:
+        p_ = clean(p_)
+        if p_ in rows:
+            rows.remove(p_)
+    enc_rows = []
+    for r in rows:
+        items = []
+        for v, c in sorted(r.items()):
+            if c.denominator != 1 or '"' in v:
+                return None
+            items.append('(lit "%s", %s)' % (v, core.cq_Z(int(c))))
+        enc_rows.append(cq_list(items))
+    ids = StrIds()
+    return "(%s, %s)" % (enc_inst(case, tab, ids, case["top"]), cq_list(enc_rows))
+
 
 
 # ---------------------------------------------------------------------------
@@ -637,8 +811,14 @@ def slim(case):
 def run(ctx):
     import time
     t0 = time.time()
-    core.check_props(ctx, "C09.v", THEOREMS)
-    timing = {"props_s": round(time.time() - t0, 1)}
+    timing = {}
+
+    def static_part():
+        core.check_props(ctx, "C09.v", THEOREMS)
+        check_name_tie(ctx)
+        timing["props_and_tie_s"] = round(time.time() - t0, 1)
+    bg = ThreadPoolExecutor(max_workers=1)
+    static_future = bg.submit(static_part)       # runs while the children parse and flatten
     fp, _ = core.fingerprint(core.REPO + "/src/pymoca/tree.py", {"expand_connectors", "flatten_symbols"})
     ctx.notes["source_fingerprint"] = {"tree.py:expand_connectors+flatten_symbols": fp}
     n_rand = ctx.scaled(220, 5000)
@@ -702,11 +882,34 @@ def run(ctx):
             enc.append(e)
             idx.append(i)
     timing["oracle_s"] = round(time.time() - t0, 1)
+    static_future.result()
+    bg.shutdown()
     t0 = time.time()
-    bad = core.coq_eval_cases(ctx, "rows", PREAMBLE, "inst * list row", enc, "check_case", shard=SHARD)
-    timing["coq_eval_s"] = round(time.time() - t0, 1)
+    ev = ThreadPoolExecutor(max_workers=1)
+    path_future = ev.submit(core.coq_eval_cases, ctx, "rows", PREAMBLE, CASE_TYPE, enc, "check_case", SHARD)
+    # (c) the same comparison at STRING level on a sample: identifiers and flattened names are the real
+    #     strings, the model builds names with the dot-joined instance and compares them as strings
+    t0 = time.time()
+    n_str = ctx.scaled(90, 900)
+    pick = [i for i in idx if cases[i]["shape"].startswith("exhaustive")][:n_str // 3]
+    pick += [i for i in idx if not cases[i]["shape"].startswith("exhaustive")][:n_str - len(pick)]
+    enc_s, idx_s = [], []
+    for i in pick:
+        e = encode_case_s(cases[i], results[i])
+        if e is not None:
+            enc_s.append(e)
+            idx_s.append(i)
+    bad_s = core.coq_eval_cases(ctx, "strrows", PREAMBLE_S, CASE_TYPE_S, enc_s, "check_case_s", shard=45)
+    bad = path_future.result()
+    ev.shutdown()
+    mism_s = list(idx_s) if bad_s is None else [idx_s[j] for j in bad_s]
+    ctx.oblige("correspondence:string-level-model-vs-expand_connectors", not mism_s and len(enc_s) > 0,
+               "mismatching cases: %s of %d" % (sorted(mism_s)[:10], len(enc_s)))
+    timing["coq_eval_both_s"] = round(time.time() - t0, 1)
+    ctx.notes["string_level_cases"] = len(enc_s)
     ctx.notes["timing"] = timing
     mism = list(range(len(cases))) if bad is None else [idx[j] for j in bad] + [i for i, _ in unenc]
+    mism = sorted(set(mism) | set(mism_s))
     ctx.oblige("correspondence:model-vs-expand_connectors", not mism,
                "mismatching cases: %s; not encodable: %s" % (sorted(mism)[:10], unenc[:3]))
     if mism and not [v for v in ctx.violations if not v["no_input"]]:
